@@ -680,6 +680,11 @@ class Program:
                             self._callers[n].append((f, b, t))
         return self._callers.get(key, [])
 
+    def inlined_helper_keys(self):
+        if getattr(self, "_inl_keys", None) is None:
+            self._inl_keys = {h for v in self.inlined.values() for h, _ in v}
+        return self._inl_keys
+
     def callees_of(self, f, include_children=True):
         fs = self.family(f.key) if include_children and f.root_key == f.key else [f]
         out = set()
@@ -687,7 +692,11 @@ class Program:
             for b, t in g.calls():
                 for n in (t.get("resolved"), t.get("callee")):
                     if n in self.fns:
-                        out.add(self.fns[n].root_key)
+                        rk = self.fns[n].root_key
+                        if rk != n and rk in self.inlined_helper_keys() and not self.callers_of(rk):
+                            out.add(n)      # a closure of a helper that now exists only expanded at its call sites
+                        else:
+                            out.add(rk)
                         break
             # closures / coroutines created here are part of the family already
         return out
